@@ -200,6 +200,46 @@ func (*BytecodeCompiler).emitNewCollection
   ensures none: size > 65535 ==> clen(c) == old(clen(c))
   ensures prefix: forall k int :: 0 <= k && k < old(clen(c)) ==> ci(c, k) == old(ci(c, k))
 
+// ---- instructions that name a value-pool entry -------------------------------------------
+// the operand is the index AddValue returned, which is inside the pool and holds the value;
+// an index that needs more than 16 bits emits nothing and returns -1
+spec fn vlen(c *BytecodeCompiler) int = len(c.bytecode.Values)
+spec fn holdsVal(c *BytecodeCompiler, i int, v value.Value) bool = 0 <= i && i < vlen(c) && elem(c.bytecode.Values, i).flag == v.flag && elem(c.bytecode.Values, i).data == v.data && elem(c.bytecode.Values, i).ptr == v.ptr
+
+func (*BytecodeCompiler).emitAddValue
+  props C29
+  requires wfC(c) && location != nil && location.Span != nil && location.StartPos != nil
+  ensures wf: wfC(c) && c.bytecode == old(c.bytecode)
+  ensures pool: ret >= 0 ==> holdsVal(c, ret, val)
+  ensures short: 0 <= ret && ret <= 255 ==> ci(c, old(clen(c))) == opCode8 && ci(c, old(clen(c)) + 1) == ret && clen(c) == old(clen(c)) + 2
+  ensures long: ret > 255 ==> ret <= 65535 && ci(c, old(clen(c))) == opCode16 && be16(c, old(clen(c)) + 1) == ret && clen(c) == old(clen(c)) + 3
+  ensures none: ret < 0 ==> ret == -1 && clen(c) == old(clen(c))
+  ensures prefix: forall k int :: 0 <= k && k < old(clen(c)) ==> ci(c, k) == old(ci(c, k))
+  ensures poolkept: forall k int :: 0 <= k && k < old(vlen(c)) ==> elem(c.bytecode.Values, k) == old(elem(c.bytecode.Values, k))
+
+func (*BytecodeCompiler).emitLoadValue
+  props C29
+  requires wfC(c) && location != nil && location.Span != nil && location.StartPos != nil
+  ensures wf: wfC(c) && c.bytecode == old(c.bytecode)
+  ensures pool: ret >= 0 ==> holdsVal(c, ret, val)
+  ensures tiny: 0 <= ret && ret <= 3 ==> ci(c, old(clen(c))) == bytecode.LOAD_VALUE_0 + ret && clen(c) == old(clen(c)) + 1
+  ensures short: 3 < ret && ret <= 255 ==> ci(c, old(clen(c))) == bytecode.LOAD_VALUE8 && ci(c, old(clen(c)) + 1) == ret && clen(c) == old(clen(c)) + 2
+  ensures long: ret > 255 ==> ret <= 65535 && ci(c, old(clen(c))) == bytecode.LOAD_VALUE16 && be16(c, old(clen(c)) + 1) == ret && clen(c) == old(clen(c)) + 3
+  ensures none: ret < 0 ==> ret == -1 && clen(c) == old(clen(c))
+  ensures prefix: forall k int :: 0 <= k && k < old(clen(c)) ==> ci(c, k) == old(ci(c, k))
+  ensures poolkept: forall k int :: 0 <= k && k < old(vlen(c)) ==> elem(c.bytecode.Values, k) == old(elem(c.bytecode.Values, k))
+
+// ---- catch table --------------------------------------------------------------------------
+// registering appends one entry with exactly the given fields; earlier entries keep their
+// place (the VM takes the first matching entry, so inner handlers registered first win)
+func (*BytecodeCompiler).registerCatch
+  props C29 C14
+  requires c != nil && c.bytecode != nil
+  ensures len: len(c.bytecode.CatchEntries) == old(len(c.bytecode.CatchEntries)) + 1
+  ensures entry: elem(c.bytecode.CatchEntries, old(len(c.bytecode.CatchEntries))).From == from && elem(c.bytecode.CatchEntries, old(len(c.bytecode.CatchEntries))).To == to && elem(c.bytecode.CatchEntries, old(len(c.bytecode.CatchEntries))).JumpAddress == jumpAddress && elem(c.bytecode.CatchEntries, old(len(c.bytecode.CatchEntries))).Finally == finally
+  ensures prefix: forall k int :: 0 <= k && k < old(len(c.bytecode.CatchEntries)) ==> elem(c.bytecode.CatchEntries, k) == old(elem(c.bytecode.CatchEntries, k))
+  ensures code: c.bytecode == old(c.bytecode) && c.bytecode.Instructions == old(c.bytecode.Instructions)
+
 func (*BytecodeCompiler).emitInstantiate
   props C29
   requires wfC(c) && location != nil && location.Span != nil && location.StartPos != nil && args >= 0
